@@ -1,7 +1,10 @@
 import CedarVerif.Lemmas.LevelSound
 import CedarVerif.Lemmas.LevelBridge
+import CedarVerif.Lemmas.LevelFaithful
 import CedarVerif.Lemmas.TypecheckDefs
+import CedarVerif.Lemmas.TypecheckPolicy
 import CedarVerif.Thm.C01
+import CedarVerif.Thm.C11
 /-
 C16 — level validation guarantees that the level-n slice of the store suffices; raising n never rejects.
 
@@ -12,22 +15,37 @@ with its short-circuit simplifications), `checkExpr`/`derefLevel`/`derefErrs` (m
 
 PROVED for the WHOLE mirrored checker (every expression form):
   * `level_monotone`, `level_monotone_policy` — acceptance at level n implies acceptance at level n+1;
-  * `slice_monotone`, `slice_lookup` — the slice grows with n and is a sub-store of whole entities;
+  * `slice_monotone`, `slice_lookup`, `slice_complete` — the slice grows with n and is a sub-store of whole entities;
   * `deref_within` (the key lemma) — a dereference target of level k only evaluates to entities within k hops;
   * `level_sound_partial` — for a typed expression `te` whose kind annotations agree with the run-time values (`Kinds`),
     in the environment of the request's action: no level errors at level n ⇒ `te` evaluates over `atLevel n req store`
     exactly as over `store`;
-  * `level_sound_fragment` — for the connective-free part of C03's proved fragment (`.`/`has` chains through entities
-    and records, literals, variables, `!`, `-`, `+ - *`, `==`, `like`, `is`) the hypothesis `Kinds` is DERIVED from typechecker
-    acceptance + conformance (C03 `typeOf_sound_aux`), and the typed AST is the expression itself: the statement is
-    about `evaluate e` with no semantic hypothesis left;
-  * `level_sound_authorization` — lifted to `isAuthorized` (same response, hence — with C01's characterisations — the same
-    decision, determining policies and erroring policies) for policy sets whose typed ASTs are level-n accepted.
-FULL STATEMENT: `level_sound` (a `def … : Prop`): the same conclusion from *typechecker acceptance and conformance* of
-request and store instead of the two semantic hypotheses `Kinds` (annotations agree with values) and `Faithful` (the
-typed AST evaluates like the condition).  Both are consequences of typechecker soundness (C03 `typeOf_sound`, itself
-proved for a fragment only); that derivation is NOT proved here.  It is covered by the implementation-level search of
-harness/src/c16.rs (slice vs full store on every generated accepted policy set, conformant requests and stores).
+  * `level_sound_authorization`, `level_sound_sets` — lifted to `isAuthorized` (same response, hence — with C01's
+    characterisations — the same decision, determining policies and erroring policies) for policy sets whose typed ASTs are
+    level-n accepted (`LevelOk`: typed AST `Faithful` on store and slice, `Kinds`, `checkLevel`).
+THE FULL STATEMENT `level_sound` IS PROVED (`level_sound_strict : level_sound`), for EVERY construct of strictly valid static
+policies: the two semantic hypotheses `Kinds` and `Faithful` are DERIVED from typechecker acceptance + conformance with
+C03's strict-mode typechecker soundness (`soundM`, Lemmas/TypecheckSound2.lean) by `annot_res` (Lemmas/LevelFaithful.lean):
+  * `Faithful` on the store: the typechecker's simplifications (`if` with a test typed `True`/`False` returned with one
+    branch twice; `a && b` with `a` typed `False` and `a || b` with `a` typed `True` returned as `a`) preserve evaluation,
+    errors included — an expression typed `True` evaluates to `true` or fails, so the dropped branch/operand never runs;
+  * `Kinds`: the value at each evaluated `.`/`has` target is an instance of its static type (entity uid / record);
+  * `Faithful` on the SLICE — not an instance of the former, because the slice violates a C03 premise (it lacks the other
+    action entities): a dropped operand is justified by level soundness of its guard's typed AST (guard over slice = guard
+    over store);
+  * `annotate_total` (Lemmas/LevelAnnot.lean): the typed AST exists whenever `typeOf` answers.
+  Theorems: `levelOk_env` / `level_sound_env` (one request environment, both validation modes on `InFragmentM`),
+  `levelOk_policy` / `level_sound_policy` (policy level, linked templates included: the request's environment is among those
+  checked and the slots are bound accordingly), `level_sound_strict` (= `level_sound`, static policy sets, authorizer
+  response), `level_sound_linked` (policy sets with linked templates), `level_sound_strict_sets` (decision, erroring
+  policies, determining policies).
+  Premises of `level_sound` w.r.t. its first formulation — all C03's, added while proving, see its doc comment: `SchemaWF2`
+  (true of every schema Rust constructs), `ActionsPresent` (the store holds the schema's action entities — without it the
+  statement is FALSE in the model), distinct record-literal keys (a map in Rust), no slots in a static policy.
+  * `level_sound_fragment` (kept) — the earlier connective-free fragment under `SchemaWF` only, both modes.
+NOT proved: permissive-mode policies outside `InFragmentM .permissive` (C03's permissive soundness gap: `if`/set literals
+joining entity/record/set types); for policy sets with linked templates the statement is `level_sound_linked` (its
+hypotheses name, per member, the slot uses and the request's linked environment).
 -/
 namespace Cedar.C16
 open Cedar Cedar.Level Cedar.Slice
@@ -193,15 +211,157 @@ theorem level_sound_fragment (n : Nat) (m : ValidationMode) (s : Schema) (env : 
   rw [erase_annotate m s env [] e te hf ha] at h
   exact h
 
-/-- FULL STATEMENT of C16's soundness half.  For a resolved schema, a policy set every member of which is accepted by
-the (strict) typechecker model and by the level checker at maximum level `n` in every request environment, a request
-and a store that conform to the schema: authorization over the level-`n` slice equals authorization over the store. -/
+/-! ### `Kinds` and `Faithful` DERIVED from typechecker soundness (C03 `soundM`: every construct) -/
+
+/-- For a condition that the typechecker model does not reject in the environment `env` of a request, in a world that
+satisfies the C03 premises (conformant request and store, action entities present, slots bound), and whose typed AST raises
+no level error at `n`: the typed AST exists (`annotate_total`), is level-accepted, evaluates like the condition over the
+store AND over the level-`n` slice (`Faithful` twice), and its kind annotations agree with the values (`Kinds`).
+Both modes (`InFragmentM`: strict — every construct). -/
+theorem levelOk_env (n : Nat) (m : ValidationMode) (s : Schema) (env : RequestEnv) (w : World)
+    (hWF : C03.SchemaWF2 s) (henv : EnvMatches s env w.q) (hreq : ConformsRequest s w.q) (hst : StoreConforms s w.es)
+    (hact : C03.ActionsPresent s w.es) (hsl : C03.SlotsMatch env w.sl)
+    (cond : Expr) (hf : C03.InFragmentM m env cond = true) (v : Verdict) (hv : checkEnv m s env cond = some v)
+    (hne : v ≠ .fail) (hl : levelEnv n m s env cond = some []) :
+    ∃ te, annotate m s env cond [] = .ok te ∧ checkLevel n env.action te = true ∧ Faithful w.q w.es w.sl cond te ∧
+      Faithful w.q (atLevel n w.q w.es) w.sl cond te ∧ Kinds w.q w.es w.sl te := by
+  unfold checkEnv at hv
+  unfold levelEnv at hl
+  cases hE : expectOneOf (typeOf m s env cond []) [boolT] with
+  | error err =>
+    rw [hE] at hv
+    cases err <;> simp at hv
+    exact (hne hv.symm).elim
+  | ok p =>
+    rw [hE] at hl; simp only at hl
+    obtain ⟨te, hte⟩ := annotate_total cond [] p (ok_of_expect hE)
+    rw [hte] at hl
+    simp only [Option.some.injEq] at hl
+    have r := annot_res (n := n) hWF henv ⟨hreq, hst, hsl, hact⟩ cond hf [] te hte (capsHold_nil w)
+    exact ⟨te, hte, by simp [checkLevel, hl], r.faithful, r.slice (Or.inl hl), r.kinds⟩
+
+/-- C16 (`level_sound`, one request environment, NO semantic hypothesis): a condition accepted by the typechecker model
+(verdict other than `fail`) and by the level checker at `n` in the environment of a conformant request evaluates over the
+level-`n` slice exactly as over the store — same value or same error.  Every construct in strict mode. -/
+theorem level_sound_env (n : Nat) (m : ValidationMode) (s : Schema) (env : RequestEnv) (w : World)
+    (hWF : C03.SchemaWF2 s) (henv : EnvMatches s env w.q) (hreq : ConformsRequest s w.q) (hst : StoreConforms s w.es)
+    (hact : C03.ActionsPresent s w.es) (hsl : C03.SlotsMatch env w.sl)
+    (cond : Expr) (hf : C03.InFragmentM m env cond = true) (v : Verdict) (hv : checkEnv m s env cond = some v)
+    (hne : v ≠ .fail) (hl : levelEnv n m s env cond = some []) :
+    evaluate w.q (atLevel n w.q w.es) w.sl cond = evaluate w.q w.es w.sl cond := by
+  obtain ⟨te, _, hc, f1, f2, hk⟩ := levelOk_env n m s env w hWF henv hreq hst hact hsl cond hf v hv hne hl
+  unfold Faithful at f1 f2
+  rw [← f1, ← f2]
+  exact level_sound_partial w.q w.es w.sl n env.action henv.2.1.symm te hk hc
+
+/-- every environment that `levelPolicy` lists raised no level error -/
+theorem levelPolicy_mem {n : Nat} {m : ValidationMode} {s : Schema} {pu ru : SlotUse} {cond : Expr}
+    (h : levelPolicy n m s pu ru cond = some []) {env : RequestEnv} (hmem : env ∈ s.envs pu ru) :
+    levelEnv n m s env cond = some [] := by
+  unfold levelPolicy at h
+  cases hm : (s.envs pu ru).mapM (fun env => levelEnv n m s env cond) with
+  | none => simp [hm] at h
+  | some rs =>
+    simp only [hm, Option.map_some, Option.some.injEq] at h
+    obtain ⟨y, hy, hyr⟩ := C03.option_mapM_mem hm env hmem
+    rw [hy, List.flatten_eq_nil_iff.mp h y hyr]
+
+/-- POLICY LEVEL (policies and linked templates): acceptance by the strict typechecker model and by `levelPolicy n` in all
+request environments ⇒ `LevelOk` in every world whose request environment is one of them. -/
+theorem levelOk_policy (n : Nat) (s : Schema) (pu ru : SlotUse) (p : Policy) (vs : List (RequestEnv × Verdict))
+    (req : Request) (es : Entities) (env : RequestEnv)
+    (hWF : C03.SchemaWF2 s) (hmem : env ∈ s.envs pu ru) (henv : EnvMatches s env req) (hreq : ConformsRequest s req)
+    (hst : StoreConforms s es) (hact : C03.ActionsPresent s es) (hsl : C03.SlotsMatch env p.env)
+    (hf : C03.InFragment2 env p.condition = true)
+    (hcp : checkPolicy .strict s pu ru p.condition = some vs) (hacc : accepted vs = true)
+    (hl : levelPolicy n .strict s pu ru p.condition = some []) : LevelOk n req es p := by
+  obtain ⟨v, hv, hvm⟩ := C03.checkPolicy_mem hcp hmem
+  have hne : v ≠ .fail := by
+    have := List.all_eq_true.mp hacc _ hvm
+    simpa using this
+  obtain ⟨te, _, hc, f1, f2, hk⟩ :=
+    levelOk_env n .strict s env ⟨req, es, p.env⟩ hWF henv hreq hst hact hsl p.condition hf v hv hne (levelPolicy_mem hl hmem)
+  have ha : env.action = req.action := henv.2.1
+  exact ⟨te, f1, f2, hk, by rw [← ha]; exact hc⟩
+
+/-- C16 (`level_sound`, policy level, templates included): the condition of a policy accepted by strict validation and by
+level validation at `n` evaluates over the level-`n` slice as over the store, for every conformant request (whose
+environment is among those checked, with the policy's slots bound accordingly) and conformant store. -/
+theorem level_sound_policy (n : Nat) (s : Schema) (pu ru : SlotUse) (p : Policy) (vs : List (RequestEnv × Verdict))
+    (req : Request) (es : Entities) (env : RequestEnv)
+    (hWF : C03.SchemaWF2 s) (hmem : env ∈ s.envs pu ru) (henv : EnvMatches s env req) (hreq : ConformsRequest s req)
+    (hst : StoreConforms s es) (hact : C03.ActionsPresent s es) (hsl : C03.SlotsMatch env p.env)
+    (hf : C03.InFragment2 env p.condition = true)
+    (hcp : checkPolicy .strict s pu ru p.condition = some vs) (hacc : accepted vs = true)
+    (hl : levelPolicy n .strict s pu ru p.condition = some []) :
+    evaluate req (atLevel n req es) p.env p.condition = evaluate req es p.env p.condition ∧
+    p.outcome req (atLevel n req es) = p.outcome req es := by
+  have hok := levelOk_policy n s pu ru p vs req es env hWF hmem henv hreq hst hact hsl hf hcp hacc hl
+  refine ⟨?_, outcome_slice n req es p hok⟩
+  obtain ⟨te, f1, f2, hk, hc⟩ := hok
+  unfold Faithful at f1 f2
+  rw [← f1, ← f2]
+  exact level_sound_partial req es p.env n req.action rfl te hk hc
+
+/-- FULL STATEMENT of C16's soundness half (static policies).  For a resolved schema, a policy set every member of which is
+accepted by the strict typechecker model and by the level checker at maximum level `n` in every request environment, a
+request and a store that conform to the schema: authorization over the level-`n` slice equals authorization over the store.
+Premises added while proving it (all are C03's, Thm/C03.lean): `SchemaWF2` instead of `SchemaWF` (facts true of every
+schema Rust constructs), `ActionsPresent` (the store holds the schema's action entities, as `Entities::from_entities(..,
+schema)` guarantees — without it `action in Action::"g"`, typed `True` from the action hierarchy and therefore dropped from
+an `if`, evaluates to `false` and the un-levelled branch runs: the statement is false), record literals with distinct keys
+(Rust's `ExprKind::Record` is a map) and no slots in a static policy (`SlotsLinked` in every environment). -/
 def level_sound : Prop :=
   ∀ (n : Nat) (s : Schema) (ps : List Policy) (req : Request) (es : Entities),
-    SchemaWF s → ConformsRequest s req → StoreConforms s es →
-    (∀ p ∈ ps, p.env = [] ∧ (∃ vs, checkPolicy .strict s .absent .absent p.condition = some vs ∧ accepted vs = true) ∧
+    C03.SchemaWF2 s → ConformsRequest s req → StoreConforms s es → C03.ActionsPresent s es →
+    (∀ p ∈ ps, p.env = [] ∧ C03.RecordKeysDistinct p.condition = true ∧ (∀ env, C03.SlotsLinked env p.condition = true) ∧
+      (∃ vs, checkPolicy .strict s .absent .absent p.condition = some vs ∧ accepted vs = true) ∧
       levelPolicy n .strict s .absent .absent p.condition = some []) →
     isAuthorized req (atLevel n req es) ps = isAuthorized req es ps
+
+/-- every member of such a policy set is `LevelOk` -/
+theorem levelOk_static (n : Nat) (s : Schema) (p : Policy) (req : Request) (es : Entities)
+    (hWF : C03.SchemaWF2 s) (hreq : ConformsRequest s req) (hst : StoreConforms s es) (hact : C03.ActionsPresent s es)
+    (h : p.env = [] ∧ C03.RecordKeysDistinct p.condition = true ∧ (∀ env, C03.SlotsLinked env p.condition = true) ∧
+      (∃ vs, checkPolicy .strict s .absent .absent p.condition = some vs ∧ accepted vs = true) ∧
+      levelPolicy n .strict s .absent .absent p.condition = some []) : LevelOk n req es p := by
+  obtain ⟨_, hk, hlinked, ⟨vs, hcp, hacc⟩, hl⟩ := h
+  obtain ⟨env, hmem, henv, hp, hr⟩ := C03.conformant_request_env hreq
+  have hsl : C03.SlotsMatch env p.env :=
+    ⟨fun t ht => (by rw [hp] at ht; cases ht), fun t ht => (by rw [hr] at ht; cases ht)⟩
+  exact levelOk_policy n s .absent .absent p vs req es env hWF hmem henv hreq hst hact hsl
+    (C03.inFragment2_of env p.condition hk (hlinked env)) hcp hacc hl
+
+/-- C16: THE FULL STATEMENT `level_sound` IS PROVED — for every strictly valid, level-`n` valid static policy set (all
+constructs), conformant request and store: the authorizer response over the level-`n` slice is the response over the
+store. -/
+theorem level_sound_strict : level_sound := by
+  intro n s ps req es hWF hreq hst hact h
+  exact level_sound_authorization n req es ps (fun p hp => levelOk_static n s p req es hWF hreq hst hact (h p hp))
+
+/-- C16 (`level_sound` for policy sets that may contain LINKED TEMPLATES): every member is accepted by strict validation and
+level validation at `n` for its slot uses `pu ru`, the request's environment is one of the member's linked environments and
+the member's slot values have the slot types of that environment. -/
+theorem level_sound_linked (n : Nat) (s : Schema) (ps : List Policy) (req : Request) (es : Entities)
+    (hWF : C03.SchemaWF2 s) (hreq : ConformsRequest s req) (hst : StoreConforms s es) (hact : C03.ActionsPresent s es)
+    (h : ∀ p ∈ ps, ∃ pu ru env vs, env ∈ s.envs pu ru ∧ EnvMatches s env req ∧ C03.SlotsMatch env p.env ∧
+      C03.InFragment2 env p.condition = true ∧ checkPolicy .strict s pu ru p.condition = some vs ∧ accepted vs = true ∧
+      levelPolicy n .strict s pu ru p.condition = some []) :
+    isAuthorized req (atLevel n req es) ps = isAuthorized req es ps := by
+  refine level_sound_authorization n req es ps (fun p hp => ?_)
+  obtain ⟨pu, ru, env, vs, hmem, henv, hsl, hf, hcp, hacc, hl⟩ := h p hp
+  exact levelOk_policy n s pu ru p vs req es env hWF hmem henv hreq hst hact hsl hf hcp hacc hl
+
+/-- … spelled out: same decision, same erroring policies, same determining policies -/
+theorem level_sound_strict_sets (n : Nat) (s : Schema) (ps : List Policy) (req : Request) (es : Entities)
+    (hWF : C03.SchemaWF2 s) (hreq : ConformsRequest s req) (hst : StoreConforms s es) (hact : C03.ActionsPresent s es)
+    (h : ∀ p ∈ ps, p.env = [] ∧ C03.RecordKeysDistinct p.condition = true ∧ (∀ env, C03.SlotsLinked env p.condition = true) ∧
+      (∃ vs, checkPolicy .strict s .absent .absent p.condition = some vs ∧ accepted vs = true) ∧
+      levelPolicy n .strict s .absent .absent p.condition = some []) :
+    (isAuthorized req (atLevel n req es) ps).decision = (isAuthorized req es ps).decision ∧
+    (∀ id, (∃ p, p ∈ ps ∧ id = p.id ∧ Errs req (atLevel n req es) p) ↔ (∃ p, p ∈ ps ∧ id = p.id ∧ Errs req es p)) ∧
+    (∀ id, id ∈ (isAuthorized req (atLevel n req es) ps).reasons ↔ id ∈ (isAuthorized req es ps).reasons) :=
+  level_sound_sets n req es ps (fun p hp => levelOk_static n s p req es hWF hreq hst hact (h p hp))
 
 /-! ### non-vacuity -/
 
@@ -276,5 +436,123 @@ example : evaluate exReq (atLevel 2 exReq exStore) [] (chainFlag 1).erase = eval
     have : evaluate exReq exStore [] (TExpr.getAttr .entity (.var .principal) "next").erase = .ok (.prim (.entityUID (u "b"))) := by
       rfl
     rw [this] at hv; cases hv; rfl
+
+/-! ### non-vacuity of `level_sound_strict`: ALL its hypotheses instantiated
+
+schema `User { next: User, flag: Bool }`, action `view` on users; the store a → b → c → a, d → a plus the action entity;
+the static policy `permit when (true || principal.next.next.next.flag) && principal.next.flag`: the typechecker drops the
+3-hop operand of `||` (left operand typed `True`), so level 2 suffices although the condition mentions a level-4 access. -/
+
+def exStoreA : Entities := exStore ++ [(act, { attrs := [], ancestors := [], tags := [] })]
+def exCondS : Expr :=
+  .and (.or (.lit (.bool true)) (.getAttr (.getAttr (.getAttr (.getAttr (.var .principal) "next") "next") "next") "flag"))
+       (.getAttr (.getAttr (.var .principal) "next") "flag")
+def exPolicy : Policy := { id := "p0", effect := .permit, condition := exCondS, env := [] }
+
+theorem ex_schemaWF : C03.SchemaWF2 exSchema where
+  et_mono := by
+    intro T et h
+    have hm := C03.entityType?_mem' h
+    simp only [exSchema, List.mem_cons, Prod.mk.injEq, List.not_mem_nil, or_false] at hm
+    obtain ⟨rfl, rfl⟩ := hm
+    exact ⟨rfl, fun t ht => by simp [exUser] at ht⟩
+  act_wf := by
+    intro u a h
+    have hm := C03.action?_mem h
+    simp only [exSchema, List.mem_cons, Prod.mk.injEq, List.not_mem_nil, or_false] at hm
+    obtain ⟨rfl, rfl⟩ := hm
+    exact ⟨rfl, rfl⟩
+  no_action_etype := by
+    intro T hT
+    cases h : exSchema.entityType? T with
+    | none => rfl
+    | some et =>
+      have hm := C03.entityType?_mem' h
+      simp only [exSchema, List.mem_cons, Prod.mk.injEq, List.not_mem_nil, or_false] at hm
+      obtain ⟨rfl, _⟩ := hm
+      exact absurd hT (by decide)
+  ets_map := by
+    intro p hp
+    simp only [exSchema, List.mem_cons, List.not_mem_nil, or_false] at hp
+    subst hp; rfl
+  act_type := by
+    intro u a h
+    have hm := C03.action?_mem h
+    simp only [exSchema, List.mem_cons, Prod.mk.injEq, List.not_mem_nil, or_false] at hm
+    obtain ⟨rfl, _⟩ := hm
+    decide
+  act_anc_desc := by
+    intro u a h p hp
+    have hm := C03.action?_mem h
+    simp only [exSchema, List.mem_cons, Prod.mk.injEq, List.not_mem_nil, or_false] at hm
+    obtain ⟨rfl, rfl⟩ := hm
+    simp [exView] at hp
+  act_desc_anc := by
+    intro u a h d hd
+    have hm := C03.action?_mem h
+    simp only [exSchema, List.mem_cons, Prod.mk.injEq, List.not_mem_nil, or_false] at hm
+    obtain ⟨rfl, rfl⟩ := hm
+    simp [exView] at hd
+
+theorem ex_request : ConformsRequest exSchema exReq :=
+  (Cedar.C11.checkRequest_iff _ _).mp ((ok_iff_isOkB _).mpr (by decide +kernel))
+
+theorem ex_store : StoreConforms exSchema exStoreA := by
+  intro uid d h
+  have hm := C03.entities_find?_mem h
+  simp only [exStoreA, exStore, List.cons_append, List.nil_append, List.mem_cons, Prod.mk.injEq, List.not_mem_nil,
+    or_false] at hm
+  rcases hm with ⟨rfl, rfl⟩ | ⟨rfl, rfl⟩ | ⟨rfl, rfl⟩ | ⟨rfl, rfl⟩ | ⟨rfl, rfl⟩ <;>
+    exact (Cedar.C11.checkEntity_iff exSchema (by decide +kernel) _ _).mp ((ok_iff_isOkB _).mpr (by decide +kernel))
+
+theorem ex_actions : C03.ActionsPresent exSchema exStoreA := by
+  intro u a h
+  have hm := C03.action?_mem h
+  simp only [exSchema, List.mem_cons, Prod.mk.injEq, List.not_mem_nil, or_false] at hm
+  obtain ⟨rfl, _⟩ := hm
+  exact ⟨_, rfl⟩
+
+/-- the policy is strictly valid, needs level 2 (not 1), although its condition contains a level-4 access -/
+example : checkPolicy .strict exSchema .absent .absent exCondS = some [(exEnv, .bool)] := rfl
+example : levelPolicy 2 .strict exSchema .absent .absent exCondS = some [] := by decide +kernel
+example : levelPolicy 1 .strict exSchema .absent .absent exCondS = some [.maxExceeded 2] := by decide +kernel
+/-- the level-2 slice is a proper sub-store (it lacks `d`) -/
+example : (atLevel 2 exReq exStoreA).map (·.1) = [u "a", u "b", u "c", act] := by decide +kernel
+/-- `level_sound_strict` applies: every hypothesis holds on this input … -/
+example : isAuthorized exReq (atLevel 2 exReq exStoreA) [exPolicy] = isAuthorized exReq exStoreA [exPolicy] :=
+  level_sound_strict 2 exSchema [exPolicy] exReq exStoreA ex_schemaWF ex_request ex_store ex_actions (by
+    intro p hp
+    simp only [List.mem_singleton] at hp
+    subst hp
+    exact ⟨rfl, by decide, fun _ => rfl, ⟨[(exEnv, .bool)], rfl, rfl⟩, by decide +kernel⟩)
+/-- … and the response is not trivial: the policy is satisfied (b.flag = true) and determines `allow` -/
+example : (isAuthorized exReq exStoreA [exPolicy]).decision = .allow ∧ (isAuthorized exReq exStoreA [exPolicy]).reasons = ["p0"] := by
+  decide +kernel
+
+/-! ### why `ActionsPresent` is a premise: without the action entities the statement fails (in the model)
+
+`action view in [read]`; `if action in Action::"read" then true else principal.next.next.flag` is typed with the test `True`
+(from the schema's action hierarchy), so its typed AST is `if … then true else true`: level 1.  Over a store WITHOUT the
+action entities the test evaluates to `false`, the un-levelled `else` branch runs, and the level-1 slice lacks `b`. -/
+def readG : EntityUID := ⟨"Action", "read"⟩
+def exViewG : ActionEntry := { exView with ancestors := [readG] }
+def exReadG : ActionEntry :=
+  { principals := [], resources := [], context := .record [] false, descendants := [act], ancestors := [], attrs := [] }
+def exSchemaG : Schema := { ets := [("User", exUser)], acts := [(readG, exReadG), (act, exViewG)] }
+def exCondG : Expr :=
+  .ite (.binaryApp .mem (.var .action) (.lit (.entityUID readG))) (.lit (.bool true))
+       (.getAttr (.getAttr (.getAttr (.var .principal) "next") "next") "flag")
+def exPolicyG : Policy := { id := "g", effect := .permit, condition := exCondG, env := [] }
+def exReqD : Request := ⟨u "d", act, u "d", []⟩
+example : (checkPolicy .strict exSchemaG .absent .absent exCondG).map accepted = some true := by decide +kernel
+example : levelPolicy 1 .strict exSchemaG .absent .absent exCondG = some [] := by decide +kernel
+/-- `exStore` holds no action entity: slice and store disagree … -/
+example : (isAuthorized exReqD (atLevel 1 exReqD exStore) [exPolicyG]).decision = .deny ∧
+          (isAuthorized exReqD exStore [exPolicyG]).decision = .allow := by decide +kernel
+/-- … with the action entities (as `Entities::from_entities(.., schema)` adds them) they agree, as `level_sound_strict` says -/
+def exStoreG : Entities :=
+  exStore ++ [(readG, { attrs := [], ancestors := [], tags := [] }), (act, { attrs := [], ancestors := [readG], tags := [] })]
+example : (isAuthorized exReqD (atLevel 1 exReqD exStoreG) [exPolicyG]).decision = .allow ∧
+          (isAuthorized exReqD exStoreG [exPolicyG]).decision = .allow := by decide +kernel
 
 end Cedar.C16
